@@ -20,9 +20,11 @@ _reg(SchedProp('C02', ['Ea.C02.only_running_queued_once', 'Ea.C02.not_running_no
                        'Ea.C02.not_running_never_executed', 'Ea.C02.not_running_never_executed_history',
                        'Ea.C02.disabled_executes_nothing', 'Ea.C02.control_leaves_other_jobs']))
 _reg(SchedProp('C07', ['Ea.C07.status_next_run', 'Ea.C07.finished_terminal', 'Ea.C07.callbacks_once',
-                       'Ea.C07.set_next_run_callbacks']))
+                       'Ea.C07.set_next_run_callbacks', 'Ea.step_frozen', 'Ea.C07.not_running_record_frozen']))
 _reg(SchedProp('C08', ['Ea.C08.reset_announces', 'Ea.C08.reset_accepted', 'Ea.C08.countdown_fire_pauses',
-                       'Ea.C08.once_finishes', 'Ea.C08.queued_once']))
+                       'Ea.C08.once_finishes', 'Ea.C08.queued_once', 'Ea.create_once_queued', 'Ea.reset_queued',
+                       'Ea.sleepLoop_executes', 'Ea.C08.once_runs_at_its_instant',
+                       'Ea.C08.countdown_runs_at_reset_plus_countdown']))
 _reg(SchedProp('C09', ['Ea.C09.queue_sorted', 'Ea.C09.paused_never_queued', 'Ea.C09.queue_nodup',
                        'Ea.C09.insort_keeps_sorted', 'Ea.dSpec', 'Ea.oSpec', 'Ea.sleepLoop_ordered',
                        'Ea.C09.executions_in_due_order']))
